@@ -58,14 +58,15 @@ CLAIMED = {
                      "state, port and event, the handler never forgets an upstream entry whose observer is still subscribed; hence one controller's bookkeeping keeps 'subscribed implies registered' and "
                      "'ended implies empty map' across any event, any early leave of the downstream during a delivery and any dynamic subscription, and an ended subscription has no subscribed upstream observer. "
                      "Partial: the theorem is per node (one StreamController); that closure propagates through a whole pipeline tree (each upstream observer's teardown is the next controller's finalize) is checked on the "
-                     "model's final world of every generated scenario (closure_ok) and on the implementation by probes (is_subscribed seen by instrumented sources before every emission, subject observer counts), not proved globally."),
+                     "model's final world of every generated scenario (closure_ok) and on the implementation by probes (is_subscribed seen by instrumented sources before every emission, subject observer counts), not proved globally. C06_dead_observer_subscribes_nothing: an observer that has already ended is never handed to a source (inner_subscribe's guard), for every pipeline."),
     "C08": dict(engine="coq-conc", design="DESIGN.md 6 C08",
                 technique="machine-checked proof in Coq (invariants of the queue transition system over all traces) + linearisation check of every observed call/return history against the extracted transition system under a deterministic scheduling runtime",
                 text="Theorems C08_queue_accounting / C08_no_start_after_abort / C08_worker_takes_front / C08_worker_exits_after_abort / C08_notifications_not_lost: for every trace of the queue "
                      "transition system (one transition per critical section; any clients, posts and aborts also from inside tasks, spurious wake-ups) posted = started ++ discarded ++ queued in order "
                      "(FIFO, at most once, nothing lost), one task at a time, a sleeping worker implies empty queue and no abort (no lost wake-up), nothing starts after abort and the worker exits within "
                      "one task return and one check. Tie: histories of the real scheduler under thousands of controlled schedules (random, PCT, DFS, spurious wake-ups) must be linearisations accepted "
-                     "by the extracted transition system; thread affinity and worker liveness at quiescence are read off the runtime."),
+                     "by the extracted transition system; thread affinity and worker liveness at quiescence are read off the runtime. C08_stop_discards_what_is_queued: right after a stop the queue is empty and every task posted so far has been started or discarded; "
+                     "on the implementation every task closure records when the scheduler lets go of it (task-drop): a task posted before an abort that never ran has been let go of during the run; tasks whose destructor posts or aborts (post-guarded)."),
     "C13": dict(engine="coq-seq", design="DESIGN.md 6 C13",
                 technique="machine-checked proof in Coq (invariants of the connectable automaton over all call histories; simulation between the automaton and the reference machine of the definition for publish, ref_count and replay) + three-way correspondence impl = Seq = ConnK and a reference-machine oracle on every implementation observation",
                 text="Theorems C13_ref_count_one_source / C13_replay_one_source / C13_publish_sources_are_connections / C13_publish_nothing_before_connect: for every call history "
